@@ -93,7 +93,7 @@ struct Explorer
     {
         const size_t n = m.bytes.size();
         {
-            P p(kMaxSize);
+            P p(m.limit ? m.limit : kMaxSize);
             o1 = step(p, m.bytes.data(), n);
             if (o1.kind == DONE)
                 m1 = canon_message(p);
@@ -109,7 +109,7 @@ struct Explorer
         std::unordered_map<std::string, int> seen;
         std::deque<Node> frontier;
         {
-            P p(kMaxSize);
+            P p(m.limit ? m.limit : kMaxSize);
             Node root { 0, {}, canon_state(p) };
             seen.emplace("0|" + root.sigma, 1);
             frontier.push_back(std::move(root));
@@ -124,7 +124,7 @@ struct Explorer
             {
                 snprintf(note, sizeof note, "msg#%" PRIu64 " (%s) k=%zu j=%zu npath=%zu", midx, m.label.c_str(), nd.k, j, nd.path.size());
                 ctx.note(note);
-                P p(kMaxSize);
+                P p(m.limit ? m.limit : kMaxSize);
                 size_t prev = 0;
                 bool replay_ok = true;
                 for (uint16_t e : nd.path)
@@ -171,7 +171,7 @@ struct Explorer
     // run one explicit segmentation; returns the terminal key in the same format as 'terminals'
     std::string run_cuts(const std::vector<size_t>& ends)
     {
-        P p(kMaxSize);
+        P p(m.limit ? m.limit : kMaxSize);
         size_t prev = 0;
         const size_t n = m.bytes.size();
         for (size_t e : ends)
@@ -267,6 +267,16 @@ int main(int argc, char** argv)
     {
         auto compact = wellformed_corpus(0, maxlen);
         corpus.insert(corpus.end(), compact.begin(), compact.end());
+        // the same messages with the parser's size limit exactly at the message size: a message that fits must be
+        // accepted however it is cut (the limit is on bytes received, not on how the buffer happens to grow)
+        for (size_t i = 0; i < compact.size(); i += 3)
+            if (compact[i].bytes.size() >= 24)
+            {
+                Msg t   = compact[i];
+                t.limit = t.bytes.size();
+                t.label += " [size limit = message size]";
+                corpus.push_back(t);
+            }
     }
     if (muts)
     {
